@@ -437,6 +437,57 @@ func main() {
 		}
 		samples = append(samples, map[string]any{"renderer": "octree", "meshCells": n, "lattice_corners": []int{nx, ny, nz}, "jobs": len(jobs), "example": map[string]any{"voxel_mask": "0x96", "origin_corner": []int{1, 2, 1}, "alignment": 1e-5, "voxel_size_cells": 1}})
 	}
+	// position-coded fields on larger lattices: every corner value distinct (sign from a ball pattern, magnitude
+	// below every half diagonal, cube centres 0: nothing is prunable), compared with the per-cell reference over
+	// the whole discovered lattice: a value that does not come from the field at that corner (a distance cache
+	// keyed wrongly, a stale or shared cache) changes some triangle.  (added after seed C07-5)
+	for _, n := range vlib.Pick(c, []int{17, 33}, []int{17, 33, 40, 64}) {
+		S := float64(n)
+		bb := sdf.Box3{Min: v3.Vec{X: -S / 2, Y: -S / 2, Z: -S / 2}, Max: v3.Vec{X: S / 2, Y: S / 2, Z: S / 2}}
+		mk := func() render.Render3 { return render.NewMarchingCubesOctree(n) }
+		l, err := lattice.Discover3(mk(), bb, 0)
+		if ce, ok := err.(*lattice.CoverageError); ok {
+			c.Violation("octree|sampled-volume-does-not-cover-bounding-box|cell-never-visited", ce.Msg, map[string]any{"renderer": "octree", "unvisited_corner": ce.Corner})
+			continue
+		}
+		if err != nil || l.Stride != 2 {
+			c.HarnessError("octree lattice discovery (position-coded) n=%d: %v", n, err)
+			continue
+		}
+		nx, ny, nz := l.NC()
+		sigma := 0.1 * l.Cell().X
+		f := l.NewField3(2 * sigma)
+		N := float64(nx * ny * nz)
+		cx, cy, cz := float64(nx-1)/2, float64(ny-1)/2, float64(nz-1)/2
+		rad := 0.45 * S
+		for a := 1; a < nx-1; a++ {
+			for b := 1; b < ny-1; b++ {
+				for d := 1; d < nz-1; d++ {
+					sgn := 1.0
+					if math.Sqrt((float64(a)-cx)*(float64(a)-cx)+(float64(b)-cy)*(float64(b)-cy)+(float64(d)-cz)*(float64(d)-cz)) < rad*(1+0.2*math.Sin(float64(a+2*b+3*d))) {
+						sgn = -1
+					}
+					f.Set(a, b, d, sgn*(1+float64((a*ny+b)*nz+d)/N)*sigma)
+				}
+			}
+		}
+		got := render.ToTriangles(f, mk())
+		if f.OffLattice.Load() != 0 {
+			c.HarnessError("octree position-coded n=%d: %d evaluations off the discovered lattice", n, f.OffLattice.Load())
+		}
+		want := ref3(l, f)
+		desc := map[string]any{"renderer": "octree", "meshCells": n, "field": "position-coded lookup field (ball with a rippled radius), nothing prunable", "lattice_corners": []int{nx, ny, nz}, "corners_never_evaluated_outside_the_box": l.Missing}
+		if a, b := diff(triKeys(got, 1), triKeys(want, 1)); len(a)+len(b) > 0 {
+			c.Violation("octree|position-coded|differs-from-every-finest-cell", fmt.Sprintf("octree n=%d position-coded field: %d triangles not in the finest-cell reference, %d missing", n, len(a), len(b)), desc)
+		}
+		if l.Missing > 0 && len(got) > 0 {
+			c.Note("octree n=%d: %d lattice corners outside the bounding box were never evaluated by the probe render", n, l.Missing)
+		}
+		states++
+		trans += int64(len(got))
+		atomic.AddInt64(&nontrivial, 1)
+		samples = append(samples, map[string]any{"renderer": "octree", "meshCells": n, "family": "position-coded field", "triangles": len(got)})
+	}
 	// analytic 1-Lipschitz shapes
 	m3 := func(s sdf.SDF3, err error) sdf.SDF3 {
 		if err != nil {
